@@ -676,9 +676,15 @@ class SimRadio:
         if pkt.kind == "ack":
             return None
         cfg = self.r[CONFIG]
-        if not (self.powered and cfg & 1 and self.ce):
-            return None
         if pkt.ch != self.r[RF_CH]:
+            return None
+        if not (self.powered and cfg & 1 and self.ce):
+            # not receiving: record "deaf" when one of its open pipes was addressed
+            if self.powered and pkt.aw == self.aw():
+                en = self.r[EN_RXADDR]
+                for p in range(1 if not cfg & 1 else 0, 6):
+                    if en & (1 << p) and self.pipe_addr(p)[: pkt.aw] == pkt.addr:
+                        return "deaf"
             return None
         if self.rx_since is None or self.rx_since > pkt.t0 or self.act is not None:
             return "deaf"
